@@ -34,9 +34,16 @@ def main():
         if rc != 0:
             print(pid, k, "patch does not apply:", out[-300:])
             continue
-        rc, out = sh("make -j8 check 2>&1 | grep -E '^# (TOTAL|PASS|FAIL|ERROR)'", cwd=wt)
-        m = re.search(r"# PASS:\s+(\d+)", out)
-        passed = int(m.group(1)) if m else -1
+        # tests/ringbuftest spins for ever when its consumer thread times out on a loaded machine (producer: while (!put);):
+        # bound the run and try again
+        passed = -1
+        for attempt in range(3):
+            sh("pkill -f tests/ringbuftest; true")
+            rc, out = sh("timeout 300 make -j8 check 2>&1 | grep -E '^# (TOTAL|PASS|FAIL|ERROR)'", cwd=wt)
+            m = re.search(r"# PASS:\s+(\d+)", out)
+            passed = int(m.group(1)) if m else -1
+            if passed == 17:
+                break
         meta["make_check_with_patch"] = out.strip().replace("\n", " ")
         demo = os.path.join(md, "demo.sh")
         d_with = d_without = None
